@@ -78,12 +78,24 @@ PROBES.update({
 OTHER = "def g() -> int:\n    return 1\n\n\nclass K:\n    pass\n"
 
 
+# probes that need their own files next to the probe modules (path relative to the package -> text)
+EXTRA_FILES = {
+    "module_named_like_package": {"mypkg.py": "class SameName:\n    \"\"\"Doc of SameName.\"\"\"\n\n    def m(self, x: int) -> int:\n        \"\"\"Doc of m.\"\"\"\n        ...\n",
+                                  "subp/__init__.py": "", "subp/subp.py": "def same_name_fn(a: int) -> int:\n    \"\"\"Doc.\"\"\"\n    ...\n"},
+    "utf8_bom_file": {"with_bom.py": "\ufeffclass Bom:\n    \"\"\"Doc of Bom.\"\"\"\n\n    def m(self) -> int:\n        ...\n"},
+}
+PROBES.update({"module_named_like_package": "", "utf8_bom_file": ""})
+
+
 def probe_package(names: list[str]) -> dict:
     files = {"mypkg/__init__.py": "", "mypkg/other.py": OTHER}
+    for n in names:
+        for rel, text in EXTRA_FILES.get(n, {}).items():
+            files[f"mypkg/{rel}"] = text
     for n in names:
         if PROBES[n]:
             files[f"mypkg/p_{n}.py"] = PROBES[n]
     for p, t in files.items():
-        compile(t, p, "exec")
+        compile(t.lstrip("\ufeff"), p, "exec")
     return {"files": files, "src_rel": "mypkg", "top": "mypkg", "features": ["PROBES", *names], "doc_style": "NUMPYDOC",
             "meta": {"tokens": {}, "probes": {}}, "name": "probes-" + "+".join(names)}
